@@ -34,6 +34,7 @@ MC = {
     "C13": [mc("MC_QVec", "MC_QVec")],
     "C15": [mc("HuffWM", "MC_HuffWM_k4_quick", "MC_HuffWM_k4"), mc("HuffWM", "MC_HuffWM_k2_quick", "MC_HuffWM_k2")],
     "C17": [mc("Words", "MC_Words", workers=6)],
+    "C18": [mc("MC_Conc", "MC_Conc_none", workers=4), mc("MC_Conc", "MC_Conc_atomic_pair", workers=4), mc("MC_Conc", "MC_Conc_torn_single", workers=4)],
     "C19": [mc("MC_BitVecLines", "MC_BitVecLines", "MC_BitVecLines_thorough")],
 }
 
@@ -114,7 +115,7 @@ TEXTS.update({
                "Trusted: the harness's counting global allocator (requested bytes, live at the end of construction), TLC. The per-level constants (1 KiB, 2 KiB with prefetch support, 512 B for binary levels) are the 'term proportional to the number of levels' of the statement."),
     "C15": _t("For Huffman-shaped trees TLC computes an upper bound of n*H0 from the symbol counts (fixed-point log2, rounded so that the bound is never stricter than stated) and checks level data <= n*(H0 + 2 | 1), level data <= plain tree's level data, and heap <= per-level layout bound + symbol-indexed tables.", _TV + "; Space.tla entropy bound with a fixed-point log2 table",
                "The per-level lengths are read from the value's own serialized form (field `lens`) by a field-extracting serializer in the harness. A code that is non-optimal by less than about 0.05 bit/symbol is not detected."),
-    "C16": _t("space_usage_byte() against heap + size_of for every SpaceUsage kind and construction path: |reported - actual| <= 4 % + 256 B per component (+ 2304 B + 40 B per symbol value for Huffman code tables), and KiB/MiB/GiB equal the byte figure scaled (exact in f64).", _TV + "; Space.tla reported-vs-retained relation"),
+    "C16": _t("space_usage_byte() against heap + size_of for every SpaceUsage kind and construction path: |reported - actual| <= 4 % + 256 B per component (+ 2304 B + 72 B per symbol value for Huffman code tables), and KiB/MiB/GiB equal the byte figure scaled (exact in f64).", _TV + "; Space.tla reported-vs-retained relation"),
     "C17": _t("select_in_word over the whole in-byte table in every byte lane, few-bit, full-byte and random words; the u128 variant across the 64-bit seam; popcnt_wide, msb on all powers of two +-1 per type, stable partitions on all short sequences embedded at boundary shifts of every element type, text_remap on all short byte strings: each outcome computed independently by TLC from the definition.", _TV + "; exhaustive small families per primitive"),
     "C18": _t("Send + Sync decided by a compile-time probe crate; purity by bit-identical bincode serialization before/after query batches run twice; sharing by 2-16 threads released together on one reference, every thread's answers compared with the sequential answers, which TLC judges against the clause tables.", _TV + "; compile-time auto-trait probe; sampled thread schedules"),
 })
